@@ -181,6 +181,25 @@ static inline double cmb_wtdsummary_mean(const struct cmb_wtdsummary *wsp)
 }
 
 /**
+ * @brief Helper: the moment sums of a weighted summary rescaled as if the
+ *        weights averaged one (multiplied by count / summed weights), so that
+ *        the unweighted finite-sample formulas apply and the result does not
+ *        depend on the unit in which the weights are expressed.
+ */
+static inline struct cmb_datasummary cmi_wtdsummary_normalized(const struct cmb_wtdsummary *wsp)
+{
+    struct cmb_datasummary ds = wsp->ds;
+    if (wsp->wsum > 0.0) {
+        const double f = (double)ds.count / wsp->wsum;
+        ds.m2 *= f;
+        ds.m3 *= f;
+        ds.m4 *= f;
+    }
+
+    return ds;
+}
+
+/**
  * @brief The weighted sample variance of the samples in the weighted data
  *        summary.
  *
@@ -193,7 +212,9 @@ static inline double cmb_wtdsummary_variance(const struct cmb_wtdsummary *wsp)
 {
     cmb_assert_release(wsp != NULL);
 
-    return cmb_datasummary_variance((struct cmb_datasummary *)wsp);
+    const struct cmb_datasummary ds = cmi_wtdsummary_normalized(wsp);
+
+    return cmb_datasummary_variance(&ds);
 }
 
 /**
@@ -209,7 +230,9 @@ static inline double cmb_wtdsummary_stddev(const struct cmb_wtdsummary *wsp)
 {
     cmb_assert_release(wsp != NULL);
 
-    return cmb_datasummary_stddev((struct cmb_datasummary *)wsp);
+    const struct cmb_datasummary ds = cmi_wtdsummary_normalized(wsp);
+
+    return cmb_datasummary_stddev(&ds);
 }
 
 /**
@@ -225,7 +248,9 @@ static inline double cmb_wtdsummary_skewness(const struct cmb_wtdsummary *wsp)
 {
     cmb_assert_release(wsp != NULL);
 
-    return cmb_datasummary_skewness((struct cmb_datasummary *)wsp);
+    const struct cmb_datasummary ds = cmi_wtdsummary_normalized(wsp);
+
+    return cmb_datasummary_skewness(&ds);
 }
 
 /**
@@ -241,7 +266,9 @@ static inline double cmb_wtdsummary_kurtosis(const struct cmb_wtdsummary *wsp)
 {
     cmb_assert_release(wsp != NULL);
 
-    return cmb_datasummary_kurtosis((struct cmb_datasummary *)wsp);
+    const struct cmb_datasummary ds = cmi_wtdsummary_normalized(wsp);
+
+    return cmb_datasummary_kurtosis(&ds);
 }
 
 /**
